@@ -42,6 +42,9 @@
 #include <string>
 #include <vector>
 #include <algorithm>
+#include <atomic>
+#include <chrono>
+#include <thread>
 #include <omp.h>
 
 #include <tapkee/defines.hpp>
@@ -70,11 +73,38 @@ struct Data
 static std::vector<int> g_owner;
 static bool g_track = false;
 
+// wave 4, big weight-matrix cases only: ONE evaluation of the callback is slow (a lazily loaded sample): the first call whose
+// first argument is g_stall_sample waits until no other thread has called the callback for 100 ms (at most 20 s), i.e. until the
+// rest of the team has run ahead as far as it can.  Values are untouched; an iteration that is in flight for a long time is what
+// makes a block claimed early and filled late (or any other "obtained under the lock, used after it") visible in the RESULT
+// and to ASan, where ThreadSanitizer sees the race whatever the timing.
+static std::atomic<long> g_calls(0);
+static std::atomic<int> g_stall_sample(-1);
+static std::atomic<bool> g_stalled(false);
+static void stall_once()
+{
+    long seen = g_calls.load(std::memory_order_relaxed);
+    int quiet = 0;
+    for (int ms = 0; ms < 20000 && quiet < 100; ms += 10)
+    {
+        std::this_thread::sleep_for(std::chrono::milliseconds(10));
+        long now = g_calls.load(std::memory_order_relaxed);
+        quiet = (now == seen) ? quiet + 10 : 0;
+        seen = now;
+    }
+}
+static inline void callback_called(int a)
+{
+    g_calls.fetch_add(1, std::memory_order_relaxed);
+    if (a == g_stall_sample.load(std::memory_order_relaxed) && !g_stalled.exchange(true)) stall_once();
+}
+
 struct dist_cb
 {
     const Data* D;
     inline ScalarType distance(int a, int b) const
     {
+        callback_called(a);
         if (g_track) g_owner[a] = omp_get_thread_num();
         double s = 0;
         for (int c = 0; c < D->dim; c++)
@@ -86,6 +116,7 @@ struct dist_cb
     }
     inline ScalarType kernel(int a, int b) const
     {
+        callback_called(a);
         double s = 0;
         for (int c = 0; c < D->dim; c++)
             s += D->at(a, c) * D->at(b, c);
@@ -227,6 +258,10 @@ static std::vector<double> flat(const DenseMatrix& M)
 
 static std::vector<double> run_region(const std::string& region, const Data& D, int k, int d, int L, uint64_t seed)
 {
+    // iteration 0 of a big weight-matrix case meets the slow sample (its first window neighbour) in its first callback
+    const bool big_weight = D.N > BIG_N && (region == "klle" || region == "kltsa" || region == "hlle");
+    g_stalled.store(false);
+    g_stall_sample.store(big_weight ? 1 : -1);
     Indices idx(D.N);
     for (int i = 0; i < D.N; i++) idx[i] = i;
     dist_cb cb{&D};
@@ -430,7 +465,7 @@ int main()
         printf("C %ld\n", id);
         fflush(stdout);
         const bool weight_region = (region == "klle" || region == "kltsa" || region == "hlle");
-        if (N < 1 || N > (weight_region ? 60000 : 4000) || dim < 1 || dim > 16 || k < 1 || k >= std::max(N, 2) || d < 1 || d > 6 || L < 1 || L > N)
+        if (N < 1 || N > (weight_region ? 60000 : 4000) || (N > 4000 && k > 64) || dim < 1 || dim > 16 || k < 1 || k >= std::max(N, 2) || d < 1 || d > 6 || L < 1 || L > N)
         {
             printf("BAD %ld\nE %ld\n", id, id);
             continue;
